@@ -6,8 +6,8 @@
 //            "default_version":<uri|null>,"compat":bool?,"format":bool?}
 // reply   : {"id":n,"compile_error":"..."}                       schema refused (json_exception)
 //         | {"id":n,"parse_error":"..."}                         schema text is not JSON (harness problem)
-//         | {"id":n,"results":[{"v":b,"n":k,"msgs":[[keyword,location],..],"threw":b,"v2":b,"walk_n":k,"walk":[location,..]},..]}
-//           a call that ends in a json_exception other than validation_error adds "error":{"call":..,"what":..,"type":..}
+//         | {"id":n,"results":[{"v":b,"n":k,"msgs":[[keyword,location],..],"threw":b,"v2":b,"walk_n":k,"walk":[[keyword,location],..]},..]}
+//           a call that ends in an exception other than validation_error adds "error":{"call":..,"what":..,"type":..} (first such call)
 #include "common/exec.hpp"
 #include <jsoncons/json.hpp>
 #include <jsoncons_ext/jsonschema/jsonschema.hpp>
@@ -48,28 +48,28 @@ template <class Json> static std::string run_schema(const json& req) {
 
         bool v = false, v2 = false, threw = false;
         size_t n = 0; std::string msgs = "[";
-        size_t wn = 0; std::set<std::string> wlocs;
+        size_t wn = 0; std::set<std::pair<std::string, std::string>> wlocs;
 
-        try { v = compiled->is_valid(inst); } catch (const json_exception&) { note("is_valid"); }
+        try { v = compiled->is_valid(inst); } catch (const json_exception&) { note("is_valid"); } catch (const std::exception&) { note("is_valid"); }
         try {
             compiled->validate(inst, [&](const jsonschema::validation_message& m) {
                 if (n < 6) { if (n) msgs += ","; msgs += "[" + jstr(m.keyword()) + "," + jstr(m.instance_location().string()) + "]"; }
                 ++n; return jsonschema::walk_result::advance; });
-        } catch (const json_exception&) { note("validate(reporter)"); }
+        } catch (const json_exception&) { note("validate(reporter)"); } catch (const std::exception&) { note("validate(reporter)"); }
         msgs += "]";
         try { compiled->validate(inst); }
         catch (const jsonschema::validation_error&) { threw = true; }
-        catch (const json_exception&) { note("validate"); }
-        try { v2 = compiled->is_valid(inst); } catch (const json_exception&) { note("is_valid#2"); }
+        catch (const json_exception&) { note("validate"); } catch (const std::exception&) { note("validate"); }
+        try { v2 = compiled->is_valid(inst); } catch (const json_exception&) { note("is_valid#2"); } catch (const std::exception&) { note("is_valid#2"); }
         try {
             compiled->walk(inst, [&](const std::string& keyword, const Json& schema, const uri& schema_location, const Json& instance, const jsonpointer::json_pointer& loc) {
-                (void)keyword; (void)schema; (void)schema_location; (void)instance;
-                ++wn; if (wlocs.size() < 48) wlocs.insert(loc.string());
+                (void)schema; (void)schema_location; (void)instance;
+                ++wn; if (wlocs.size() < 64) wlocs.insert(std::make_pair(loc.string(), keyword));
                 return jsonschema::walk_result::advance; });
-        } catch (const json_exception&) { note("walk"); }
+        } catch (const json_exception&) { note("walk"); } catch (const std::exception&) { note("walk"); }
 
         std::string w = "[";
-        { bool f = true; for (const auto& s : wlocs) { if (!f) w += ","; f = false; w += jstr(s); } }
+        { bool f = true; for (const auto& s : wlocs) { if (!f) w += ","; f = false; w += "[" + jstr(s.second) + "," + jstr(s.first) + "]"; } }
         w += "]";
         J rec;
         rec.boolean("v", v).unum("n", n).raw("msgs", msgs).boolean("threw", threw).boolean("v2", v2).unum("walk_n", wn).raw("walk", w);
